@@ -575,4 +575,55 @@ pub fn run(ctx: &mut Ctx) {
         &|| dec_case().boxed(),
         &check_dec,
     );
+    ctx.fuzz(&crate::fuzzapi::IDENTITY_DECODE, 30_000, 600_000, crate::fuzzapi::IDENTITY_DECODE_RUNS_PER_JOB, crate::fuzzapi::FUZZ_JOBS);
+}
+
+// ---------------------------------------------------------------------------------------------
+// byte-level entry for the fuzz target `identity_decode` (same oracles: check_from_bytes / check_dec)
+
+/// mode % 3: 0 = PeerId::from_bytes, 1 = PublicKey::try_decode_protobuf, 2 = Keypair::from_protobuf_encoding.
+/// Ok(non-trivial): a well-formed multihash with a decided class (mode 0) / an accepted key (modes 1, 2).
+pub fn fuzz_entry(mode: u8, bytes: &[u8]) -> Result<bool, (String, serde_json::Value)> {
+    let out = match mode % 3 {
+        0 => check_from_bytes(bytes),
+        1 => check_dec(&DecCase { target: Target::PublicPb, base: None, muts: vec![], raw: bytes.to_vec() }),
+        _ => check_dec(&DecCase { target: Target::PrivatePb, base: None, muts: vec![], raw: bytes.to_vec() }),
+    };
+    match out {
+        Outcome::Fail { signature, detail } => Err((signature, detail)),
+        Outcome::Pass { nontrivial, labels } => Ok(if mode % 3 == 0 { nontrivial } else { labels.contains(&"accepted") }),
+        _ => Ok(false),
+    }
+}
+
+/// golden seeds: peer id bytes, public and private key protobufs of every pool key
+pub fn fuzz_seed_inputs() -> Vec<(String, Vec<u8>)> {
+    let mut v = vec![];
+    for i in 0..POOL_LEN {
+        let Some(kp) = KeySpec::Pool(i as u8).build() else { continue };
+        let label = type_label(&kp).trim_start_matches("key:");
+        let with = |mode: u8, b: &[u8]| {
+            let mut x = vec![mode];
+            x.extend_from_slice(b);
+            x
+        };
+        v.push((format!("peerid-{label}-{i}"), with(0, &kp.public().to_peer_id().to_bytes())));
+        v.push((format!("public-{label}-{i}"), with(1, &kp.public().encode_protobuf())));
+        let private = match kp.to_protobuf_encoding() {
+            Ok(b) => Some(b),
+            Err(_) => rsa_pkcs1(i.saturating_sub(POOL_CHEAP)).map(|pkcs1| {
+                let mut pb = pb_varint(1, 0);
+                pb.extend(pb_bytes(2, &pkcs1));
+                pb
+            }),
+        };
+        if let Some(p) = private {
+            v.push((format!("private-{label}-{i}"), with(2, &p)));
+        }
+    }
+    v.push(("peerid-identity-42".into(), { let mut x = vec![0u8, 0x00, 42]; x.extend([7u8; 42]); x }));
+    v.push(("peerid-identity-43".into(), { let mut x = vec![0u8, 0x00, 43]; x.extend([7u8; 43]); x }));
+    v.push(("peerid-sha1".into(), { let mut x = vec![0u8, 0x11, 20]; x.extend([1u8; 20]); x }));
+    v.push(("public-unknown-type".into(), { let mut x = vec![1u8]; x.extend(pb_varint(1, 9)); x.extend(pb_bytes(2, &[1, 2, 3])); x }));
+    v
 }
